@@ -15,7 +15,7 @@ TECHNIQUE = ('runtime monitoring: Flask test client drives the tree\'s api/app.p
              'hp2dec, dec2hp inside api.app record which query field reached which argument; responses compared exactly with '
              'direct library calls and, for the HP conversions, with the exact angle oracle')
 RULE = ('random queries over the C04/C05 domains with every combination of from_angle_type/to_angle_type in {dd, dms, absent}; '
-        'HP-valid inputs built by the oracle; negative (western/southern) values; distinct values in every field so a swapped '
+        'HP-valid inputs built by the oracle; negative (western/southern) values; values within a fraction of an arc-second of zero (written in exponent form); 8 % of the requests preceded by a malformed request (invalid HP numeral, missing field, unknown angle type) that is not judged; distinct values in every field so a swapped '
         'wiring is visible.  Judged: status 200; JSON equal (as floats, exactly) to the library call on the same arguments with '
         'the stated HP conversions; arguments observed at the library boundary equal the query fields in order; HP outputs denote '
         'the decimal results (1e-8"); index route lists /, /vincinv, /vincdir.  distinct = endpoint x from x to x sign pattern x '
@@ -23,8 +23,9 @@ RULE = ('random queries over the C04/C05 domains with every combination of from_
 ASSUMPTIONS = ['Flask/Werkzeug test client is faithful to a real HTTP GET', 'the library functions themselves are judged by C04/C05/C08']
 N = {'quick': 150, 'thorough': 4000}
 SHARDS = {'quick': 16, 'thorough': 16}
-REQUIRED_COUNTERS = ['same_numbers_other_angle_type', 'vincinv_requests', 'vincdir_requests', 'index_requests', 'trace_args_checked']
+REQUIRED_COUNTERS = ['unjudged_requests_before_a_judged_one', 'tiny_angle_fields', 'same_numbers_other_angle_type', 'vincinv_requests', 'vincdir_requests', 'index_requests', 'trace_args_checked']
 TYPES = ['dd', 'dms', None]
+TINY = [0]
 
 
 def plan(tier, seed):
@@ -77,8 +78,14 @@ def build_query(rnd, endpoint):
     # round to typed-looking values, keep every field distinct
     q = {}
     lattice = rnd.random() < 0.35
+    tiny = rnd.random() < 0.08
     for k, v in vals.items():
         v = round(v, rnd.choice([6, 9, 11]))
+        if tiny and rnd.random() < 0.6:
+            # within a fraction of an arc-second of the equator / Greenwich / north: the number is written in exponent form
+            v = rnd.choice([-1, 1]) * rnd.choice([1e-5, 2.5e-5, 3e-6, 1.5e-7, 9.9e-5, rnd.uniform(1e-7, 9e-5)])
+            if k == 'azimuth1to2':
+                v = abs(v)
         if lattice:
             # typed-looking values: whole minutes or whole seconds (HP numerals such as 37.30 sit just below their float)
             step = rnd.choice([60, 1, 3600])
@@ -86,6 +93,8 @@ def build_query(rnd, endpoint):
             if k.startswith('lat'):
                 v = max(-89.0, min(89.0, v))
         q[k] = hpval(v) if ft == 'dms' else v
+        if q[k] != 0 and abs(q[k]) < 1e-4:
+            TINY[0] += 1
     if endpoint == 'vincdir':
         q['ell_dist'] = round(c['s'], 3)
     if ft is not None:
@@ -186,6 +195,30 @@ def judge_request(ns, ctx, tr, client, endpoint, q):
                                                                 'expected': [want_in, want_out]})
 
 
+BAD_QUERIES = [
+    ('vincinv', {'lat1': -37.3, 'lon1': 144.75, 'lat2': -37.1, 'lon2': 143.55, 'from_angle_type': 'dms'}),          # 144.75: 75 minutes
+    ('vincinv', {'lat1': -37.3, 'lon1': 144.25, 'lat2': -37.1, 'from_angle_type': 'dms', 'to_angle_type': 'dms'}),    # lon2 missing
+    ('vincinv', {'lat1': -37.3, 'lon1': 144.25, 'lat2': -37.1, 'lon2': 143.55, 'from_angle_type': 'gon'}),           # unknown type
+    ('vincinv', {'lat1': -37.3, 'lon1': 144.25, 'lat2': -37.1, 'lon2': 143.55, 'to_angle_type': 'hp'}),
+    ('vincdir', {'lat1': -37.3, 'lon1': 144.25, 'azimuth1to2': 306.6, 'ell_dist': 54972.271, 'from_angle_type': 'dms', 'to_angle_type': 'dms'}),
+    ('vincdir', {'lat1': -37.3, 'lon1': 144.25, 'azimuth1to2': 'north', 'ell_dist': 5.0, 'to_angle_type': 'dms'}),
+    ('vincdir', {'lat1': -37.3, 'azimuth1to2': 10.0, 'from_angle_type': 'dms'}),
+    ('vincdir', {'lat1': -37.3, 'lon1': 144.25, 'azimuth1to2': 10.0, 'ell_dist': 5.0, 'from_angle_type': 'DMS'}),
+]
+
+
+def unjudged_request(ctx, client, k):
+    """a request the property does not speak about (malformed: an invalid HP numeral, a missing field, an unknown angle
+    type): whatever the answer is, it is not judged - the valid request made after it must be answered as ever"""
+    ep, q = BAD_QUERIES[k % len(BAD_QUERIES)]
+    ctx.count('unjudged_requests_before_a_judged_one')
+    try:
+        r = client.get('/' + ep, query_string=q)
+        ctx.count('unjudged_request_status_%d' % r.status_code)
+    except Exception as e:
+        ctx.count('unjudged_request_raised:' + type(e).__name__)
+
+
 def judge_index(ctx, client):
     resp = client.get('/')
     ctx.judged()
@@ -212,7 +245,12 @@ def run_shard(spec, ctx):
         q = build_query(rnd, ep)
         if i < 2:
             ctx.sample({'endpoint': ep, 'query': q})
+        if rnd.random() < 0.08:
+            unjudged_request(ctx, client, rnd.randrange(1000))
         judge_request(ns, ctx, tr, client, ep, q)
+        if TINY[0]:
+            ctx.count('tiny_angle_fields', TINY[0])
+            TINY[0] = 0
         if rnd.random() < 0.4:
             # the same numbers again with another effective input / output angle type (valid only when they also read
             # as the other notation; judge_request decides) and then the original once more
